@@ -390,7 +390,7 @@ pub fn run(pc: &PropCtx) {
     let cases = pc.tier.pick(60_000, 800_000);
     pc.run_tape("line_match", cases, (128, 1500), gen_case, check);
     if pc.tier == crate::runner::Tier::Thorough {
-        pc.run_fuzz("C01:line_match", 400_000, 6000, &|v| replay(pc, "line_match", v).unwrap_or(Verdict::Reject("unreadable")));
+        pc.run_fuzz("C01:line_match", 6_000, 6000, &|v| replay(pc, "line_match", v).unwrap_or(Verdict::Reject("unreadable")));
     }
     pc.require_class("line_match:fast_line_regex_present", (cases as u64) / 200);
 }
